@@ -376,6 +376,11 @@ func computeOffset(val string, idx int) (int64, int64, error) {
 }
 
 func computeTimezoneKind(val string, idx int) (TimezoneKind, error) {
+	if idx >= len(val) {
+		// A timestamp with a time of day must end in an offset.
+		return TimezoneUnspecified, fmt.Errorf("ion: invalid timestamp: %v", val)
+	}
+
 	switch val[idx] {
 	case 'z', 'Z':
 		// 'Z' zulu time means UTC timezone.
